@@ -16,7 +16,8 @@ EXTENDS Naturals, Sequences, FiniteSets, TLC
 Concrete == {"T1", "PT1", "T2", "N1", "CH"}
 Ifaces == {"I1", "I2", "I3", "E0"}
 \* "CTX" = flamego.Context, which the request context maps to itself and a handler may re-map (trace validation only)
-Keys == Concrete \cup Ifaces \cup {"RCH", "CTX"}
+\* "RWI" = http.ResponseWriter and "REQ" = *http.Request, the other services every request scope starts with
+Keys == Concrete \cup Ifaces \cup {"RCH", "CTX", "RWI", "REQ"}
 \* <<key type, interface>>: the key's method set covers the interface
 Implements == { <<"T1", "I1">>, <<"PT1", "I1">>, <<"I1", "I1">>, <<"I3", "I1">>,
                 <<"T1", "I2">>, <<"PT1", "I2">>, <<"T2", "I2">>, <<"N1", "I2">>, <<"I2", "I2">>, <<"I3", "I2">>,
